@@ -14,6 +14,7 @@ import Lomond.Model.Connect
 import Lomond.Model.Handshake
 import Lomond.Model.Proxy
 import Lomond.Model.Transport
+import Lomond.Model.Reconnect
 import Lomond.Generated.Code
 
 namespace Lomond.Driver
@@ -565,6 +566,7 @@ def handle (line : String) : String :=
     | "inflatesafe" :: args => runInflate true args
     | "frame" :: args => runFrame args
     | "http" :: args => runHttp args
+    | "reconnect" :: args => Reconnect.runDriver args
     -- differential test of harness/py2lean.py: evaluate a generated definition
     | "gen" :: name :: args => Gen.Code.dispatch name args
     | _ => "bad-op"
